@@ -559,32 +559,56 @@ func c12LoginHistory(t *testing.T, out *vfOut, rnd *vfRand, users []webUser, nam
 // Sessions.
 
 type c12Tok struct {
-	hex                  string
+	hex                  string // the cookie value as issued
+	raw                  string // the 16 bytes
 	issued, out, expired bool
+	loose                bool   // a direct removeSession with another spelling of it happened: nothing is claimed any more
 	hi, lo               uint32 // bounds of the expiry the property allows
 }
 
-func c12STable(m map[string]*session, ids map[string]int) string {
+// c12Dict numbers the byte strings of one history (cookie strings, raw
+// tokens): the case carries the dictionary once, tables and operations refer
+// to indices.
+type c12Dict struct {
+	ix   map[string]int
+	list []string
+}
+
+func (d *c12Dict) id(s string) uint64 {
+	if i, ok := d.ix[s]; ok {
+		return uint64(i)
+	}
+	d.ix[s] = len(d.list)
+	d.list = append(d.list, s)
+	return uint64(len(d.list) - 1)
+}
+
+func (d *c12Dict) coq() string {
+	items := make([]string, len(d.list))
+	for i, s := range d.list {
+		items[i] = vfBytes(s)
+	}
+	return vfList("bytes", items)
+}
+
+func c12STable(m map[string]*session, d *c12Dict) string {
 	type row struct {
-		id int
+		id uint64
 		s  *session
 	}
 	rows := []row{}
 	for k, s := range m {
-		id, ok := ids[k]
-		if !ok {
-			id = 900 + len(k)
-		}
-		rows = append(rows, row{id, s})
+		rows = append(rows, row{d.id(k), s})
 	}
 	sort.Slice(rows, func(i, j int) bool { return rows[i].id < rows[j].id })
 	items := make([]string, len(rows))
 	for i, r := range rows {
-		items[i] = vfPair(vfN(uint64(r.id)), vfPair(vfBytes(r.s.userName), vfN(uint64(r.s.expire))))
+		items[i] = vfPair(vfN(r.id), vfPair(vfBytes(r.s.userName), vfN(uint64(r.s.expire))))
 	}
 	return vfList("N * (bytes * N)", items)
 }
 
+// c12Disk reads the bucket: raw key -> session.
 func c12Disk(a *Auth) map[string]*session {
 	m := map[string]*session{}
 	_ = a.db.View(func(tx *bbolt.Tx) error {
@@ -597,13 +621,41 @@ func c12Disk(a *Auth) map[string]*session {
 			if !s.deserialize(v) {
 				s.userName = "<undecodable>"
 			}
-			m[hex.EncodeToString(k)] = s
+			m[string(k)] = s
 			return nil
 		})
 	})
 	return m
 }
 
+// c12Spell: other spellings of a cookie value.
+func c12Spell(hx string, kind int) string {
+	switch kind {
+	case 1:
+		return strings.ToUpper(hx)
+	case 2:
+		b := []byte(hx)
+		for i := range b {
+			if i%2 == 0 {
+				b[i] = strings.ToUpper(string(b[i]))[0]
+			}
+		}
+		return string(b)
+	case 3:
+		return hx + "0" // odd length: DecodeString drops the last character
+	case 4:
+		return hx + "zz" // DecodeString stops at the first bad pair
+	case 5:
+		return hx[:len(hx)-2] // a prefix
+	}
+	return hx
+}
+
+var c12SpellNames = []string{"issued", "upper", "mixed", "odd", "tail", "prefix"}
+
+// c12SessHistory.  Script items: op[:token[:spelling]] with op in new, check,
+// http, logout (GET /control/logout through the real registration), remove
+// (removeSession / handleLogout directly), restart, setexp, setexp-past.
 func c12SessHistory(t *testing.T, out *vfOut, rnd *vfRand, users []webUser, name string, n int, script []string) {
 	dir := t.TempDir()
 	fn := filepath.Join(dir, "sessions.db")
@@ -617,16 +669,17 @@ func c12SessHistory(t *testing.T, out *vfOut, rnd *vfRand, users []webUser, name
 		t.Fatal("InitAuth failed")
 	}
 	defer func() { auth.Close() }()
-	oldAuth := globalContext.auth
-	defer func() { globalContext.auth = oldAuth }()
-	globalContext.auth = auth
+	oldAuth, oldMux, oldWeb, oldFirst := globalContext.auth, globalContext.mux, globalContext.web, globalContext.firstRun
+	defer func() {
+		globalContext.auth, globalContext.mux, globalContext.web, globalContext.firstRun = oldAuth, oldMux, oldWeb, oldFirst
+	}()
+	globalContext.auth, globalContext.mux, globalContext.web, globalContext.firstRun = auth, http.NewServeMux(), &webAPI{}, false
+	RegisterAuthHandlers() // the real registration of /control/logout (httpRegister) and /control/login
 
 	toks := []*c12Tok{}
-	ids := map[string]int{}
-	unknown := []string{"00112233445566778899aabbccddeeff", "zz", ""}
-	for i, u := range unknown {
-		ids[u] = 1000 + i
-	}
+	byRaw := map[string]*c12Tok{}
+	dict := &c12Dict{ix: map[string]int{}}
+	unknown := []string{"00112233445566778899aabbccddeeff", "zz", "", "00112233445566778899AABBCCDDEEFF"}
 	var steps, desc []string
 	classes := map[string]bool{}
 	monOK, monMsg, key := true, "", ""
@@ -636,35 +689,60 @@ func c12SessHistory(t *testing.T, out *vfOut, rnd *vfRand, users []webUser, name
 		}
 	}
 	emitStep := func(op string) {
-		steps = append(steps, vfPair(op, vfPair(c12STable(auth.sessions, ids), c12STable(c12Disk(auth), ids))))
+		steps = append(steps, vfPair(op, vfPair(c12STable(auth.sessions, dict), c12STable(c12Disk(auth), dict))))
 	}
-	forced := -1
-	pickTok := func() (string, *c12Tok, int) {
+	forced, forcedSpell := -1, -1
+	// pickTok: a cookie string, the token it is a spelling of (nil: none), a label
+	pickTok := func() (string, *c12Tok, string) {
+		var tk *c12Tok
 		if forced >= 0 && forced < len(toks) {
-			return toks[forced].hex, toks[forced], forced
-		}
-		if len(toks) == 0 || rnd.Chance(1, 10) {
+			tk = toks[forced]
+		} else if len(toks) == 0 || rnd.Chance(1, 10) {
 			u := unknown[rnd.Intn(len(unknown))]
-			return u, nil, ids[u]
+			return u, nil, fmt.Sprintf("%q", u)
+		} else {
+			tk = toks[rnd.Intn(len(toks))]
 		}
-		i := rnd.Intn(len(toks))
-		return toks[i].hex, toks[i], i
+		sp := 0
+		if forcedSpell >= 0 {
+			sp = forcedSpell
+		} else if forced < 0 && rnd.Chance(1, 3) {
+			sp = 1 + rnd.Intn(len(c12SpellNames)-1)
+		}
+		if sp != 0 {
+			classes["sess-spelling-"+c12SpellNames[sp]] = true
+		}
+		id := 0
+		for i := range toks {
+			if toks[i] == tk {
+				id = i
+			}
+		}
+		return c12Spell(tk.hex, sp), tk, fmt.Sprintf("%d/%s", id, c12SpellNames[sp])
+	}
+	// tokenOf: the issued token a cookie string decodes to, as hex.DecodeString sees it
+	tokenOf := func(sp string) *c12Tok {
+		k, _ := hex.DecodeString(sp)
+		return byRaw[string(k)]
 	}
 	for i := 0; i < n; i++ {
 		var op string
-		forced = -1
+		forced, forcedSpell = -1, -1
 		past := false
 		if script != nil {
-			var arg string
-			op, arg, _ = strings.Cut(script[i], ":")
-			if arg != "" {
-				forced, _ = strconv.Atoi(arg)
+			parts := strings.Split(script[i], ":")
+			op = parts[0]
+			if len(parts) > 1 && parts[1] != "" {
+				forced, _ = strconv.Atoi(parts[1])
+			}
+			if len(parts) > 2 {
+				forcedSpell, _ = strconv.Atoi(parts[2])
 			}
 			if op == "setexp-past" {
 				op, past = "setexp", true
 			}
 		} else {
-			op = vfPick(rnd, []string{"new", "check", "check", "check", "http", "logout", "restart", "setexp", "setexp", "setexp"})
+			op = vfPick(rnd, []string{"new", "check", "check", "check", "http", "http", "logout", "logout", "remove", "restart", "setexp", "setexp", "setexp"})
 			if len(toks) == 0 {
 				op = "new"
 			}
@@ -679,16 +757,21 @@ func c12SessHistory(t *testing.T, out *vfOut, rnd *vfRand, users []webUser, name
 				out.Class("sess-discarded")
 				return
 			}
-			tk := &c12Tok{hex: ck.Value, issued: true, hi: uint32(t0) + ttl, lo: uint32(t0) + ttl}
-			ids[ck.Value] = len(toks)
+			raw, derr := hex.DecodeString(ck.Value)
+			if derr != nil || len(raw) != sessionTokenSize || ck.Value != strings.ToLower(ck.Value) {
+				fail("sess-cookie-shape", fmt.Sprintf("the session cookie %q is not the lower-case hex of %d bytes", ck.Value, sessionTokenSize))
+			}
+			tk := &c12Tok{hex: ck.Value, raw: string(raw), issued: true, hi: uint32(t0) + ttl, lo: uint32(t0) + ttl}
 			toks = append(toks, tk)
+			byRaw[tk.raw] = tk
 			if uint64(uint32(t0))+uint64(ttl) >= 1<<32 {
 				classes["sess-wrap"] = true
 			}
-			emitStep(vfApp("C12.XNew", vfN(uint64(ttl)), vfN(uint64(t0)), vfN(uint64(len(toks)-1)), vfBytes(user)))
+			emitStep(vfApp("C12.XNew", vfN(uint64(ttl)), vfN(uint64(t0)), vfN(dict.id(tk.raw)), vfBytes(user)))
 			desc = append(desc, fmt.Sprintf("new %d user=%s ttl=%d", len(toks)-1, user, ttl))
-		case "check", "http":
-			hx, tk, id := pickTok()
+		case "check", "http", "logout":
+			hx, _, label := pickTok()
+			tk := tokenOf(hx)
 			c12AlignSecond()
 			t0 := time.Now().Unix()
 			var before uint32
@@ -697,7 +780,8 @@ func c12SessHistory(t *testing.T, out *vfOut, rnd *vfRand, users []webUser, name
 			}
 			obs := int64(3)
 			okRes := false
-			if op == "check" {
+			switch op {
+			case "check":
 				switch auth.checkSession(hx) {
 				case checkSessionOK:
 					obs, okRes = 0, true
@@ -706,7 +790,7 @@ func c12SessHistory(t *testing.T, out *vfOut, rnd *vfRand, users []webUser, name
 				case checkSessionExpired:
 					obs = 2
 				}
-			} else {
+			case "http":
 				ran := false
 				h := optionalAuth(func(http.ResponseWriter, *http.Request) { ran = true })
 				r := httptest.NewRequest(http.MethodGet, "/control/status", nil)
@@ -716,6 +800,20 @@ func c12SessHistory(t *testing.T, out *vfOut, rnd *vfRand, users []webUser, name
 				if ran {
 					obs = 0
 				}
+			default:
+				// GET /control/logout through the real mux: optionalAuth, then handleLogout
+				r := httptest.NewRequest(http.MethodGet, "/control/logout", nil)
+				r.AddCookie(&http.Cookie{Name: sessionCookieName, Value: hx})
+				w := httptest.NewRecorder()
+				globalContext.mux.ServeHTTP(w, r)
+				switch {
+				case w.Code == http.StatusFound && strings.Contains(w.Header().Get("Set-Cookie"), sessionCookieName+"="):
+					obs, okRes = 0, true // handleLogout ran
+				case w.Code == http.StatusForbidden:
+				default:
+					fail("logout-status", fmt.Sprintf("logout with cookie %s answered %d", label, w.Code))
+				}
+				classes["sess-logout-http"] = true
 			}
 			if time.Now().Unix() != t0 {
 				out.Class("sess-discarded")
@@ -726,54 +824,75 @@ func c12SessHistory(t *testing.T, out *vfOut, rnd *vfRand, users []webUser, name
 			if s, ok := auth.sessions[hx]; ok && okRes && s.expire != before {
 				classes["sess-refresh"] = true
 			}
-			// the property: a token authenticates only inside its window ...
+			// the property: a token (under any spelling) authenticates only inside its window ...
 			if okRes {
 				switch {
 				case tk == nil:
-					fail("sess-unknown-token", fmt.Sprintf("token %q never issued authenticates", hx))
+					fail("sess-unknown-token", fmt.Sprintf("cookie %s, which no issued token decodes from, authenticates", label))
 				case tk.out:
-					fail("sess-after-logout", fmt.Sprintf("token %d authenticates after logout", id))
-				case tk.expired:
-					fail("sess-after-expiry", fmt.Sprintf("token %d authenticates after it was found expired", id))
+					fail("sess-after-logout", fmt.Sprintf("cookie %s authenticates after the logout of its token", label))
+				case tk.expired && !tk.loose:
+					fail("sess-after-expiry", fmt.Sprintf("cookie %s authenticates after its token was found expired", label))
 				case now >= tk.hi:
-					fail("sess-past-expiry", fmt.Sprintf("token %d authenticates at %d, expiry bound %d", id, now, tk.hi))
+					fail("sess-past-expiry", fmt.Sprintf("cookie %s authenticates at %d, expiry bound %d", label, now, tk.hi))
 				}
-				ne := now + ttl
-				if ne > tk.hi {
-					tk.hi = ne
+				if tk != nil {
+					ne := now + ttl
+					if ne > tk.hi {
+						tk.hi = ne
+					}
+					if ne < tk.lo {
+						tk.lo = ne
+					}
+					if hx != tk.hex {
+						classes["sess-other-spelling-accepted"] = true
+					}
 				}
-				if ne < tk.lo {
-					tk.lo = ne
-				}
-			} else if tk != nil && !tk.out {
-				// ... and always inside it; once refused, refused for good
-				if !tk.expired && now < tk.lo {
-					fail("sess-rejected-inside-window", fmt.Sprintf("token %d rejected at %d although live until at least %d", id, now, tk.lo))
+			} else if tk != nil && !tk.out && hx == tk.hex {
+				// ... and always inside it (as issued); once refused, refused for good
+				if !tk.expired && !tk.loose && now < tk.lo {
+					fail("sess-rejected-inside-window", fmt.Sprintf("cookie %s rejected at %d although live until at least %d", label, now, tk.lo))
 				}
 				tk.expired = true
 			}
-			emitStep(vfApp("C12.XCheck", vfN(uint64(ttl)), vfN(uint64(t0)), vfN(uint64(id)), vfZ(obs)))
-			desc = append(desc, fmt.Sprintf("%s %d at %d -> %d", op, id, t0, obs))
-		case "logout":
-			hx, tk, id := pickTok()
-			if rnd.Chance(1, 2) && tk != nil {
-				// through the real handler
+			if op == "logout" {
+				if okRes && tk != nil {
+					// an accepted logout ends the token
+					tk.out = true
+					classes["sess-logout"] = true
+				}
+				emitStep(vfApp("C12.XLogout", vfN(uint64(ttl)), vfN(uint64(t0)), vfN(dict.id(hx)), vfZ(obs)))
+			} else {
+				emitStep(vfApp("C12.XCheck", vfN(uint64(ttl)), vfN(uint64(t0)), vfN(dict.id(hx)), vfZ(obs)))
+			}
+			desc = append(desc, fmt.Sprintf("%s %s at %d -> %d", op, label, t0, obs))
+		case "remove":
+			hx, _, label := pickTok()
+			tk := tokenOf(hx)
+			if rnd.Chance(1, 2) {
+				// the handler itself, without the middleware
 				r := httptest.NewRequest(http.MethodGet, "/control/logout", nil)
 				r.AddCookie(&http.Cookie{Name: sessionCookieName, Value: hx})
 				w := httptest.NewRecorder()
 				handleLogout(w, r)
 				if w.Code != http.StatusFound {
-					fail("logout-status", fmt.Sprintf("logout answered %d", w.Code))
+					fail("logout-status", fmt.Sprintf("handleLogout answered %d", w.Code))
 				}
 			} else {
 				auth.removeSession(hx)
 			}
 			if tk != nil {
-				tk.out = true
+				if hx == tk.hex {
+					tk.out = true
+					classes["sess-logout"] = true
+				} else {
+					// not reachable over HTTP; the bucket entry goes, the map entry stays
+					tk.loose = true
+					classes["sess-remove-other-spelling"] = true
+				}
 			}
-			classes["sess-logout"] = true
-			emitStep(vfApp("C12.XLogout", vfN(uint64(id))))
-			desc = append(desc, fmt.Sprintf("logout %d", id))
+			emitStep(vfApp("C12.XRemove", vfN(dict.id(hx))))
+			desc = append(desc, fmt.Sprintf("remove %s", label))
 		case "restart":
 			if script == nil && rnd.Chance(1, 3) {
 				ttl = ttls[rnd.Intn(len(ttls))]
@@ -781,6 +900,10 @@ func c12SessHistory(t *testing.T, out *vfOut, rnd *vfRand, users []webUser, name
 			c12AlignSecond()
 			t0 := time.Now().Unix()
 			nb := len(auth.sessions)
+			before := map[string]bool{}
+			for k := range auth.sessions {
+				before[k] = true
+			}
 			auth.Close()
 			auth = InitAuth(fn, users, ttl, nil, netutil.SliceSubnetSet(nil))
 			if auth == nil {
@@ -796,9 +919,14 @@ func c12SessHistory(t *testing.T, out *vfOut, rnd *vfRand, users []webUser, name
 			} else if nb > 0 {
 				classes["sess-restart-keep"] = true
 			}
+			for k := range auth.sessions {
+				if !before[k] {
+					fail("sess-resurrected", fmt.Sprintf("the restart brought back a session (%q) that was not in memory before it", k))
+				}
+			}
 			for _, tk := range toks {
 				if _, ok := auth.sessions[tk.hex]; !ok && !tk.out {
-					if uint32(t0) < tk.lo && !tk.expired {
+					if uint32(t0) < tk.lo && !tk.expired && !tk.loose {
 						fail("sess-lost-on-restart", fmt.Sprintf("a live token (expiry at least %d) is gone after restart at %d", tk.lo, t0))
 					}
 					tk.expired = true
@@ -819,6 +947,9 @@ func c12SessHistory(t *testing.T, out *vfOut, rnd *vfRand, users []webUser, name
 			if !ok {
 				continue
 			}
+			if _, onDisk := c12Disk(auth)[tk.raw]; !onDisk {
+				continue // (after a direct removal with another spelling)
+			}
 			now := uint32(time.Now().Unix())
 			e := vfPick(rnd, []uint32{now - 1, now, now + 1, now + 2, now + 3, now + ttl, now + ttl - 86400, now + 86400, now + 86401,
 				(now/86400+1)*86400 - 1, (now/86400 + 1) * 86400, (now+ttl)/86400*86400 - 1, (now + ttl) / 86400 * 86400,
@@ -830,17 +961,16 @@ func c12SessHistory(t *testing.T, out *vfOut, rnd *vfRand, users []webUser, name
 			a.lock.Lock()
 			s.expire = e
 			a.lock.Unlock()
-			key, _ := hex.DecodeString(tk.hex)
-			if !a.storeSession(key, s) {
+			if !a.storeSession([]byte(tk.raw), s) {
 				t.Fatal("storeSession failed")
 			}
 			tk.hi, tk.lo = e, e
-			emitStep(vfApp("C12.XSetExp", vfN(uint64(id)), vfN(uint64(e))))
+			emitStep(vfApp("C12.XSetExp", vfN(dict.id(tk.raw)), vfN(uint64(e))))
 			desc = append(desc, fmt.Sprintf("expiry of %d := %d (now %d)", id, e, now))
 		}
 	}
 	c := vfCase{
-		Coq:        vfApp("C12.CSess", vfList("C12.sess_op * (C12.stable * C12.stable)", steps)),
+		Coq:        vfApp("C12.CSess", dict.coq(), vfList("C12.sess_op * (C12.stable * C12.stable)", steps)),
 		Nontrivial: classes["sess-res-2"] || classes["sess-logout"] || classes["sess-restart-drop"] || classes["sess-refresh"],
 		MonitorOK:  monOK, MonitorMsg: monMsg, FindingKey: key,
 		Desc: map[string]any{"kind": "sessions", "name": name, "ops": desc},
@@ -850,6 +980,11 @@ func c12SessHistory(t *testing.T, out *vfOut, rnd *vfRand, users []webUser, name
 	}
 	sort.Strings(c.Classes)
 	out.Emit(c)
+}
+
+func c12Raw(hx string) string {
+	b, _ := hex.DecodeString(hx)
+	return string(b)
 }
 
 // c12BulkRestart: many sessions over several bbolt pages, a part of them
@@ -899,7 +1034,7 @@ func c12BulkRestart(t *testing.T, out *vfOut, users []webUser, n int) {
 		if _, ok := auth.sessions[k]; !ok {
 			monOK, msg = false, "a live session is not in memory after the restart"
 		}
-		if _, ok := disk[k]; !ok {
+		if _, ok := disk[c12Raw(k)]; !ok {
 			monOK, msg = false, "a live session is not on disk after the restart"
 		}
 	}
@@ -908,7 +1043,8 @@ func c12BulkRestart(t *testing.T, out *vfOut, users []webUser, n int) {
 			monOK, msg = false, "an expired session was loaded at restart"
 		}
 	}
-	for k, s := range disk {
+	for rk, s := range disk {
+		k := hex.EncodeToString([]byte(rk))
 		if !want[k] && s.expire <= now {
 			monOK, msg = false, fmt.Sprintf("an expired session (%d <= %d) is still in sessions.db after the restart", s.expire, now)
 		}
@@ -916,7 +1052,7 @@ func c12BulkRestart(t *testing.T, out *vfOut, users []webUser, n int) {
 			monOK, msg = false, "sessions.db holds a session that is not in memory after the restart"
 		}
 	}
-	out.Emit(vfCase{Coq: vfApp("C12.CSess", vfList("C12.sess_op * (C12.stable * C12.stable)", nil)), Key: "bulk-restart", Nontrivial: true,
+	out.Emit(vfCase{Coq: vfApp("C12.CSess", vfList("bytes", nil), vfList("C12.sess_op * (C12.stable * C12.stable)", nil)), Key: "bulk-restart", Nontrivial: true,
 		MonitorOK: monOK, MonitorMsg: msg, FindingKey: "sess-bulk-restart", Classes: []string{"sess-bulk-restart"},
 		Desc: map[string]any{"kind": "bulk-restart", "sessions": n, "live": len(want), "in_memory_after": len(auth.sessions), "on_disk_after": len(disk)}})
 }
@@ -957,7 +1093,26 @@ func TestVerifC12(t *testing.T) {
 		{now: s, addr: a, hname: "X-Real-IP", hval: "10.0.0.3"}, {now: s, addr: a, hname: "X-Real-IP", hval: "10.0.0.1"},
 		{now: s, addr: a, ok: true, hname: "X-Real-IP", hval: "10.0.0.4"}})
 	c12SessHistory(t, out, vfNewRand(3), users, "prelude/lifecycle", 12, []string{
-		"new", "check", "http", "new", "logout", "check", "restart", "check", "setexp", "check", "restart", "check"})
+		"new", "check", "http", "new", "logout:1", "check:1", "restart", "check:0", "setexp", "check", "restart", "check"})
+	// spellings: login; request and logout with the upper-case / mixed-case /
+	// odd / tailed / shortened spelling (all refused, nothing changes);
+	// logout as issued; restart; replay of every spelling
+	spell := []string{"new", "new"}
+	for sp := 0; sp < len(c12SpellNames); sp++ {
+		spell = append(spell, fmt.Sprintf("http:0:%d", sp), fmt.Sprintf("check:0:%d", sp))
+	}
+	for sp := 1; sp < len(c12SpellNames); sp++ {
+		spell = append(spell, fmt.Sprintf("logout:0:%d", sp))
+	}
+	spell = append(spell, "http:0:0", "restart", "http:0:0", "logout:0:0", "http:0:0", "http:0:1", "restart")
+	for sp := 0; sp < len(c12SpellNames); sp++ {
+		spell = append(spell, fmt.Sprintf("http:0:%d", sp))
+	}
+	spell = append(spell, "check:1:0", "logout:1:1", "check:1:0")
+	c12SessHistory(t, out, vfNewRand(8), users, "prelude/spellings-logout-restart-replay", len(spell), spell)
+	// function level: removeSession with another spelling of a live token
+	c12SessHistory(t, out, vfNewRand(9), users, "prelude/remove-other-spelling", 8, []string{
+		"new", "remove:0:1", "check:0:0", "restart", "check:0:0", "new", "remove:1:0", "check:1:0"})
 
 	// many sessions, every other one expired while the process is down: the
 	// reload deletes inside a bbolt ForEach
@@ -976,7 +1131,7 @@ func TestVerifC12(t *testing.T) {
 	c12SessHistory(t, out, vfNewRand(4), users, "prelude/many-sessions-restart", len(many), many)
 	c12BulkRestart(t, out, users, out.Scale(300, 2000))
 	if failedAuthTTL != time.Minute {
-		out.Emit(vfCase{Coq: vfApp("C12.CSess", vfList("C12.sess_op * (C12.stable * C12.stable)", nil)), MonitorOK: false,
+		out.Emit(vfCase{Coq: vfApp("C12.CSess", vfList("bytes", nil), vfList("C12.sess_op * (C12.stable * C12.stable)", nil)), MonitorOK: false,
 			MonitorMsg: fmt.Sprintf("the window of failed attempts is %v, the property says one minute", failedAuthTTL), FindingKey: "limiter-window-not-a-minute"})
 	}
 
